@@ -196,3 +196,89 @@ def legacy_pointers(arg: dict) -> list[dict]:
         v = base_relative_16bits_pointer_formula(base)(bytes([lo, hi]))
         out.append({"t": "rel", "base": base, "lo": lo, "hi": hi, "val": v})
     return out
+
+
+# ------------------------------------------------------------------------------------------
+# generic assembly observation
+# ------------------------------------------------------------------------------------------
+_TMP = None
+
+
+def _workdir() -> str:
+    global _TMP
+    if _TMP is None:
+        import atexit
+        import shutil
+        import tempfile
+        base = os.path.join(os.path.dirname(os.path.dirname(os.path.abspath(__file__))), "out", "work")
+        os.makedirs(base, exist_ok=True)
+        _TMP = tempfile.mkdtemp(prefix="w", dir=base)
+        atexit.register(shutil.rmtree, _TMP, True)
+    return _TMP
+
+
+def write_files(files: dict | None) -> None:
+    """files: name -> {"text": str} | {"bytes": [ints]}; written into this worker's scratch cwd"""
+    wd = _workdir()
+    os.chdir(wd)
+    for name, c in (files or {}).items():
+        d = os.path.dirname(name)
+        if d:
+            os.makedirs(d, exist_ok=True)
+        if "text" in c:
+            with open(name, "w", encoding="utf-8") as fh:
+                fh.write(c["text"])
+        else:
+            with open(name, "wb") as fh:
+                fh.write(bytes(c["bytes"]))
+
+
+def assemble(arg: dict) -> dict:
+    """Assemble arg['src'] in memory with a recording writer.
+    -> {"ok", "err", "exc", "calls": [[addr, [byte..]]..], "labels": [[name, value]..]}"""
+    from a816.cpu.cpu_65c816 import RomType
+    from a816.program import Program
+    from harness.stub import StubWriter
+    write_files(arg.get("files"))
+    p = Program()
+    if arg.get("rom") == "high":
+        p.resolver.rom_type = RomType.high_rom
+    for k, v in (arg.get("defines") or {}).items():
+        p.resolver.current_scope.add_symbol(k, v)
+    w = StubWriter()
+    out = {"ok": False, "err": None, "exc": None, "calls": [], "labels": []}
+    try:
+        err = p.assemble_string_with_emitter(arg["src"], arg.get("filename", "memory.s"), w)
+        if err is None:
+            out["ok"] = True
+        else:
+            out["err"] = str(err)
+    except RecursionError:
+        out["exc"] = "RecursionError"
+        out["err"] = "RecursionError"
+    except BaseException as e:  # noqa: BLE001 - every failure is an observation
+        out["exc"] = type(e).__name__
+        try:
+            out["err"] = str(e)
+        except Exception:
+            out["err"] = repr(e)
+    if out["ok"]:
+        out["calls"] = [[a, list(b)] for a, b in w.calls]
+        try:
+            out["labels"] = [[n, v] for n, v in p.resolver.get_all_labels()]
+        except Exception:
+            out["labels"] = []
+        if arg.get("want_symbols"):
+            syms = {}
+            for n in arg["want_symbols"]:
+                try:
+                    syms[n] = p.resolver.scopes[0].value_for(n)
+                except Exception:
+                    syms[n] = None
+            out["symbols"] = syms
+    return out
+
+
+def assemble_many(arg: dict) -> list[dict]:
+    """arg['items'] = list of assemble() arguments; used to batch tiny programs"""
+    return [assemble(a) for a in arg["items"]]
